@@ -11,6 +11,9 @@
 #include "harness/busworld.h"
 #include "harness/checks.h"
 #include "harness/exec.h"
+
+#include <sys/mman.h>
+#include <sys/stat.h>
 #include "kernel/kernel.h"
 #include "model/busmodel.h"
 
@@ -157,6 +160,13 @@ void Exec::on_dispatch(int ci, DBusConnection *conn, DBusMessage *msg) {
   if (dbus_message_is_signal(msg, "org.freedesktop.DBus.Local", "Disconnected")) {
     tr.ev("H2 c%d disconnected", ci);
     md.now_us = K->now_us;
+    {
+      // the bus drops a connection only for a reason: the client closed, or it earned it
+      bw::Client &dc = w.C(ci);
+      bm::Conn &dk = md.conns[(size_t)ci];
+      if (!dc.closed && !dc.hostile && !dk.expect_closed && !dk.unchecked && dk.alive && dk.hello && !fd_surplus.count(ci) && !tainted && plan.C("oom.k", -1) < 0 && !oom_armed)
+        fail("oracle:C10:unexpected-disconnect", "the bus disconnected well-behaved client c%d", ci);
+    }
     md.disconnect(ci);
     after_event();
     return;
@@ -258,7 +268,7 @@ void Exec::connect_step(const Step &s) {
   answered.resize(w.clients.size());
   fdpass_req.resize(w.clients.size(), false);
   fdpass_req[(size_t)ci] = s.N(3, 0) != 0;
-  md.connect(ci, cr.uid, (unsigned)cr.pid, cr.groups, false);
+  md.connect(ci, cr.uid, (unsigned)cr.pid, cr.groups, fdpass_req[(size_t)ci]);
   pol::Who who;
   who.uid = cr.uid;
   who.user = cr.uid == 0 ? "root" : "user" + std::to_string(cr.uid);
@@ -322,7 +332,16 @@ void Exec::step(const Step &s) {
     }
     return;
   }
-  if (t == "adv") { w.advance_ms(s.N(0, 0)); md.now_us = K->now_us; return; }
+  if (t == "adv") {
+    if (plan.prop == "C15") {
+      // descriptors waiting in the bus for the rest of their message are subject to pending_fd_timeout like any
+      // others; a half-delivered message is finished before the clock moves (the slow sender is not this check's subject)
+      for (auto &cl : w.clients) if (cl.connected && !cl.closed) w.deliver(cl.idx, -1);
+      w.quiesce();
+      resolve_choices();
+    }
+    w.advance_ms(s.N(0, 0)); md.now_us = K->now_us; return;
+  }
   if (t == "oombus") {
     // process the operation just issued, with the allocation number oom.k of this step failing
     // (oom.k = -1: fault-free, count the allocations instead)
@@ -455,10 +474,61 @@ void Exec::step(const Step &s) {
       simk::Rng r((uint64_t)s.N(7));
       for (size_t i = m.fields.size(); i > 1; i--) std::swap(m.fields[i - 1], m.fields[r.below(i)]);
     }
-    wire::ParseResult pr = wire::parse(wire::marshal(m));
-    if (pr.status != wire::P_OK) return;   // the generator asked for something invalid: not this workload's business
+    long nf = s.N(9, 0), fd_delta = s.N(10, 0), fd_at = s.N(11, 0);
+    std::vector<int> fds;
+    if (nf > 0 || fd_delta != 0) {
+      // descriptors: nf attached (distinct anonymous files), the header announces nf + fd_delta
+      if (fd_surplus.count(ci) || md.conns[(size_t)ci].expect_closed || c.closed) return;
+      long hdr = nf + fd_delta < 0 ? 0 : nf + fd_delta;
+      if (hdr > 0) m.set_field(wire::F_UNIX_FDS, wire::Value::u32((uint32_t)hdr));
+      std::vector<FdIdent> ids;
+      for (long i = 0; i < nf; i++) {
+        int fd = memfd_create("simfd", MFD_CLOEXEC);
+        if (fd < 0) core::harness_error("memfd_create failed");
+        struct stat st;
+        fstat(fd, &st);
+        ids.push_back({(unsigned long)st.st_dev, (unsigned long)st.st_ino});
+        fds.push_back(fd);
+      }
+      long max_msg = lim_cfg.max_message_unix_fds >= 0 ? lim_cfg.max_message_unix_fds : 16;
+      bool negotiated = (size_t)ci < fdpass_req.size() && fdpass_req[(size_t)ci];
+      // without negotiation the library reads with plain read(): the kernel discards attached descriptors, so
+      // such a message is valid exactly when it announces none
+      bool invalid = negotiated ? (hdr > nf || nf > max_msg || hdr > max_msg) : hdr > 0;
+      if (!negotiated && !invalid) { for (int fd : fds) simk::real_close(fd); fds.clear(); ids.clear(); nf = 0; counters["probe:fds_attached_without_negotiation_dropped"]++; }
+      counters["probe:fd_message_sent"]++;
+      if (invalid) {
+        // not negotiated, more announced than attached, or beyond the per-message maximum: only this sender is
+        // disconnected, nothing of the message is processed, and every descriptor it sent is closed
+        wire::Limits wl;
+        wl.max_unix_fds_available = (uint32_t)(hdr > nf ? hdr : nf);
+        c.next_serial = m.serial + 1;
+        w.queue_msg(ci, m, std::move(fds), (size_t)fd_at);
+        w.C(ci).sent.pop_back();            // never to be processed
+        w.deliver(ci, -1);
+        md.conns[(size_t)ci].expect_closed = true;
+        md.conns[(size_t)ci].close_prop = "C15";
+        counters[!negotiated ? "probe:fds_without_negotiation" : hdr > nf ? "probe:fewer_fds_than_announced" : "probe:more_fds_than_allowed"]++;
+        note("c" + std::to_string(ci) + ":send-invalid-fds(attached=" + std::to_string(nf) + ",announced=" + std::to_string(hdr) + ")");
+        return;
+      }
+      ids.resize((size_t)hdr);
+      fd_idents[{ci, m.serial}] = ids;
+      if (hdr < nf) { fd_surplus[ci] = K->now_us; counters["probe:surplus_fds_sent"]++; }
+    }
+    {
+      wire::Limits wl;
+      wl.max_unix_fds_available = (uint32_t)fds.size();
+      wire::ParseResult pr = wire::parse(wire::marshal(m), wl);
+      if (pr.status != wire::P_OK) { for (int fd : fds) simk::real_close(fd); return; }   // the generator asked for something invalid: not this workload's business
+    }
     if (m.type == wire::T_CALL) all_calls.push_back({ci, m.serial, resolve_name(s.S(0))});
-    send_msg(ci, m, s.N(2, -1));
+    if (!fds.empty()) {
+      if (c.closed || md.conns[(size_t)ci].expect_closed) { for (int fd : fds) simk::real_close(fd); return; }
+      w.queue_msg(ci, m, std::move(fds), (size_t)fd_at);
+      if (s.N(2, -1) != 0) w.deliver(ci, s.N(2, -1));
+    } else
+      send_msg(ci, m, s.N(2, -1));
     note("c" + std::to_string(ci) + ":send(type=" + std::to_string(m.type) + ",dest=" + s.S(0) + "," + s.S(3) + s.S(4) + ")");
     return;
   }
@@ -774,6 +844,40 @@ void Exec::check_state_whitebox(const char *when) {
   }
 }
 
+// C15: what arrived with each message is what was attached to it
+void Exec::check_fds(int ci) {
+  bw::Client &c = w.C(ci);
+  if (fd_checked.size() < w.clients.size()) fd_checked.resize(w.clients.size(), 0);
+  bool negotiated = (size_t)ci < fdpass_req.size() && fdpass_req[(size_t)ci];
+  for (size_t i = fd_checked[(size_t)ci]; i < c.got.size(); i++) {
+    const bw::Got &g = c.got[i];
+    uint32_t announced = g.m.unix_fds();
+    if (!negotiated && (announced > 0 || !g.fds.empty()))
+      fail("oracle:C15:fds-without-negotiation", "c%d did not negotiate descriptor passing and received a message announcing %u descriptors (%zu attached)", ci, announced, g.fds.size());
+    if (g.fds.size() != announced)
+      fail("oracle:C15:fd-count", "c%d received a message (%s) announcing %u descriptors with %zu attached", ci, g.m.repr().c_str(), announced, g.fds.size());
+    if (announced == 0) continue;
+    counters["probe:fd_message_received"]++;
+    // whose message is it?
+    int from = -1;
+    for (auto &o : w.clients) if (!o.unique.empty() && o.unique == g.m.sender()) from = o.idx;
+    if (from < 0) continue;
+    auto it = fd_idents.find({from, g.m.serial});
+    if (it == fd_idents.end()) fail("oracle:C15:fd-count", "c%d received %u descriptors with a message (serial %u of c%d) that was sent without any", ci, announced, g.m.serial, from);
+    if (it->second.size() != g.fds.size()) fail("oracle:C15:fd-count", "c%d received %zu descriptors, c%d attached %zu to serial %u", ci, g.fds.size(), from, it->second.size(), g.m.serial);
+    for (size_t k = 0; k < g.fds.size(); k++) {
+      struct stat st;
+      if (fstat(g.fds[k], &st) != 0) fail("oracle:C15:fd-identity", "descriptor %zu received by c%d is not open", k, ci);
+      if ((unsigned long)st.st_dev != it->second[k].dev || (unsigned long)st.st_ino != it->second[k].ino)
+        fail("oracle:C15:fd-identity", "descriptor %zu of serial %u as received by c%d is not the open file c%d attached in that position", k, g.m.serial, ci, from);
+    }
+    counters["fds_compared"] += g.fds.size();
+  }
+  fd_checked[(size_t)ci] = c.got.size();
+  if (!c.in_fds.empty() && c.in.empty())
+    fail("oracle:C15:surplus-fds-delivered", "c%d holds %zu descriptors that came with no message announcing them", ci, c.in_fds.size());
+}
+
 void Exec::check_point(bool final) {
   (void)final;
   w.quiesce();
@@ -803,6 +907,27 @@ void Exec::check_point(bool final) {
           K->now_us - w.accept_time_us[c.idx] > (lim_cfg.auth_timeout + 1) * 1000) overdue = true;
     if (overdue) { w.advance_ms(lim_cfg.auth_timeout + 1); md.now_us = K->now_us; w.quiesce(); resolve_choices(); }
   }
+  // Bounded liveness for pending_fd_timeout: a connection that sent descriptors beyond what its messages
+  // announced keeps them only that long; left alone it must be gone one timeout later.
+  if (!fd_surplus.empty()) {
+    long t = lim_cfg.pending_fd_timeout >= 0 ? lim_cfg.pending_fd_timeout : 150000;
+    bool waiting = false;
+    for (auto &kv : fd_surplus) { bw::Client &c = w.C(kv.first); if (!c.closed && !c.saw_eof) waiting = true; }
+    if (waiting) {
+      for (auto &cl : w.clients) if (cl.connected && !cl.closed) w.deliver(cl.idx, -1);
+      w.quiesce(); resolve_choices();
+      w.advance_ms(t + 1); md.now_us = K->now_us; w.quiesce(); resolve_choices();
+      w.advance_ms(t + 1); md.now_us = K->now_us; w.quiesce(); resolve_choices();
+      for (auto &kv : fd_surplus) {
+        bw::Client &c = w.C(kv.first);
+        w.drain(kv.first);
+        if (!c.closed && !c.saw_eof)
+          fail("oracle:C15:surplus-held", "c%d attached more descriptors than its message announced %lld ms ago (pending_fd_timeout %ld ms) and is still connected, the surplus still held", kv.first,
+               (long long)((K->now_us - kv.second) / 1000), t);
+        counters["probe:pending_fd_timeout_fired"]++;
+      }
+    }
+  }
   // what each client was told must be what the bus holds, and pairwise distinct
   std::set<std::string> seen;
   for (auto &c : w.clients) {
@@ -829,6 +954,7 @@ void Exec::check_point(bool final) {
     if (k.expect_closed && !w.accepted(c.idx)) continue;   // still in the listen backlog (incomplete-connection cap): nothing to close yet
     if (k.expect_closed) fail("oracle:" + k.close_prop + ":not-disconnected", "c%d should have been disconnected by the bus", c.idx);
     if (c.hostile) { c.got_checked = c.got.size(); continue; }
+    check_fds(c.idx);
     compare_client(c.idx);
   }
   counters["checkpoints"]++;
@@ -897,6 +1023,10 @@ void Exec::setup() {
   lim.max_message_size = plan.C("lim.msgsize", -1);
   lim.reply_timeout = plan.C("lim.reply_timeout", -1);
   lim.auth_timeout = plan.C("lim.auth_timeout", -1);
+  lim.max_message_unix_fds = plan.C("lim.msg_fds", -1);
+  lim.max_incoming_unix_fds = plan.C("lim.in_fds", -1);
+  lim.max_outgoing_unix_fds = plan.C("lim.out_fds", -1);
+  lim.pending_fd_timeout = plan.C("lim.pending_fd_timeout", -1);
   if (lim.max_names_per_connection >= 0) md.lim.max_names_per_connection = lim.max_names_per_connection;
   if (lim.max_match_rules_per_connection >= 0) md.lim.max_match_rules_per_connection = lim.max_match_rules_per_connection;
   if (lim.max_replies_per_connection >= 0) md.lim.max_replies_per_connection = lim.max_replies_per_connection;
